@@ -27,6 +27,11 @@ fn run_filter(w: &Worker, data: &Arc<Vec<u8>>, filter: &Filter, dest: Dest, stdi
         Dest::StdoutDefault => {}
     }
     args.extend(stats_args(&stats, false));
+    // every other input: the destination path already exists and holds more bytes than the run will write
+    // (a path reused from an earlier run); the output must still be exactly the matching packets
+    if dest == Dest::File && crate::tape::fnv64(data) % 2 == 0 {
+        let _ = std::fs::write(&out_file, vec![0xA5u8; data.len() + 4096]);
+    }
     let input = if stdin {
         Input::Pipe(data.clone(), 0)
     } else {
